@@ -354,6 +354,7 @@ func runC08(p *Program, r *Report) {
 	}
 	// ---- R5 no self-deadlock (a hang is not a reported problem) ------------------------------------------
 	checkNoReentrantLock(p, r, "C08.R5")
+	checkErrDerefGuarded(p, r, "C08.R11", reach)
 	checkParsedTextGoesToRegisteredMember(p, r, "C08.R10")
 	checkTreeEmptiedOnlyOnBodyFailure(p, r, "C08.R6")
 	// ---- R4 unchecked type assertions ----------------------------------------------------
